@@ -1,6 +1,6 @@
 (* C15 - Subset load balancing honours metadata and its fallback policy.  Only statements; proofs by `exact`. *)
 From Coq Require Import List Arith Bool.
-From MV Require Import Model.Subset Proofs.Subset.
+From MV Require Import Model.Subset Proofs.Subset Proofs.SubsetKeys.
 Import ListNotations.
 
 (* make1 = NewSubsetLoadBalancer (filtering builder), make2 = NewSubsetLoadBalancerPreIndex (pre-indexed builder).
@@ -82,6 +82,33 @@ Theorem c15_no_criteria : forall inner hs sels pol dflt,
   (forall h, inner hs = Some h -> choose_host inner (make1 hs sels pol dflt) None = Some h).
 Proof. exact no_criteria1. Qed.
 Print Assumptions c15_no_criteria.
+
+(* Selector normalisation (types.InitSet + GenerateSubsetKeys) is part of the model: the input is the list of selectors
+   AS CONFIGURED (any order, repeated keys, duplicates, prefixes of one another).  Every configured selector's key set
+   is present after normalisation, nothing is invented, no entry occurs twice, and two configured selectors are merged
+   exactly when they have the same key set - a selector is never dropped because it is a prefix / subset of another. *)
+Theorem c15_selector_keys_preserved : forall cfg,
+  let n := generate_subset_keys cfg in
+  (forall S, In S cfg -> exists s, In s n /\ forall k, In k s <-> In k S) /\
+  (forall s, In s n -> exists S, In S cfg /\ s = init_set S) /\
+  NoDup n /\
+  (forall S1 S2, init_set S1 = init_set S2 <-> (forall k, In k S1 <-> In k S2)).
+Proof. exact selector_keys_preserved. Qed.
+Print Assumptions c15_selector_keys_preserved.
+
+(* the property read on the CONFIGURATION: criteria (sorted by key, distinct keys - what MetadataMatchCriteriaImpl
+   holds) whose key set is the key set of a configured selector, matched by some host, select exactly the hosts whose
+   metadata contain all the pairs *)
+Theorem c15_subset_applies_configured : forall hs cfg c S,
+  c <> [] -> ssorted (map fst c) -> In S cfg -> (forall k, In k S <-> In k (map fst c)) ->
+  (exists h, In h hs /\ host_matches c h = true) ->
+  active_entry c (build1 hs (generate_subset_keys cfg)) = Some (create_subset hs c).
+Proof. exact subset_applies_configured. Qed.
+Print Assumptions c15_subset_applies_configured.
+
+Example c15_selector_example :
+  generate_subset_keys [[3; 1]; [1]; [1; 3; 1]; []; [2; 3]; [3]; []] = [[1; 3]; [1]; []; [2; 3]; [3]].
+Proof. vm_compute. reflexivity. Qed.
 
 (* C05's statements on top of subset balancing: whatever the criteria and the fallback, the returned host is a
    host of the cluster, and healthy whenever the inner policy only returns healthy hosts *)
